@@ -71,6 +71,8 @@ def run(client, root, files, pos):
         k, r = client.request("textDocument/documentSymbol", {"textDocument": {"uri": client.uri(f)}})
         out[("outline", f)] = freeze(sorted(freeze(norm(s, root)) for s in r)) if k == "resp" and isinstance(r, list) else (k, str(r)[:80])
         d = client.diagnostics(client.uri(f))
+        # which of several equally named candidates is suggested as "possible object" follows insertion order: not compared
+        d = [{k_: v_ for k_, v_ in x.items() if k_ != "relatedInformation"} for x in d] if d is not None else None
         out[("diagnostics", f)] = freeze(sorted(freeze(norm(x, root)) for x in d)) if d is not None else None
     k, r = client.request("workspace/symbol", {"query": ""})
     out[("wsymbol", "")] = freeze(sorted(freeze(norm(s, root)) for s in r)) if k == "resp" and isinstance(r, list) else (k, str(r)[:80])
